@@ -126,7 +126,7 @@ class Ctx:
         if error is not None:
             print(f"ANALYSIS-ERROR: property={self.pid} {error}")
             code = 2
-        elif new:
+        if new:
             os.makedirs(os.path.join(VERIF, "out"), exist_ok=True)
             report_path = os.path.join(VERIF, "out", f"{self.pid}-violations.json")
             with open(report_path, "w") as f:
